@@ -1,4 +1,4 @@
-\* AS CODED, expected counterexample (NoForkBelowLib): tree T3 with one restart: a block numbered below the LIB is accepted right after a restart
+\* BEFORE REPAIR b495bde5 (Fixes = {}), counterexample to NoForkBelowLib: tree T3 with one restart: a block numbered below the LIB was accepted right after a restart
 SPECIFICATION Spec
 CONSTANTS
   N = 3
